@@ -5,8 +5,8 @@
    (up to loop slots that only lookaround bodies use) the loop data it started with. *)
 From RV Require Import Base.
 From RV.Model Require Import Utf8 Indexer CodePointSet Insn IR Optimizer Unfold Emit Pike BT.
-From RV.Spec Require Import IRSem.
-From RV.Proofs Require Import NodeInd BTDen.
+From RV.Spec Require Import IRSem IRShape.
+From RV.Proofs Require Import NodeInd PikeCorrect BTDen BTShape IRGroups IRLen.
 
 Section BCorrect.
   Variable ix : indexer.
@@ -74,18 +74,621 @@ Section BCorrect.
   Qed.
 
   (* thread every success of a chain through a continuation that itself is a chain *)
-  Lemma chain_bind fwd e1 e2 (fr1 fr2 : list loopdata -> Prop) (rf : mst -> option (list mst)) c ys (Q : bconf -> Prop) :
-    chain fwd e1 fr1 c ys Q ->
-    (forall y L B zs, fr1 L -> rf y = Some zs ->
+  Lemma chain_bind fwd e1 e2 (fr1 fr2 : list loopdata -> Prop) (rf : mst -> option (list mst)) (P : mst -> Prop) c ys (Q : bconf -> Prop) :
+    chain fwd e1 fr1 c ys Q -> Forall P ys ->
+    (forall y L B zs, P y -> fr1 L -> rf y = Some zs ->
        chain fwd e2 fr2 (mkBC (MRun e1 (fst y)) L (snd y) B) zs (fun cf => exists L', cf = mkBC MBack L' (snd y) B /\ leq L L')) ->
     forall zs_all, obindm rf ys = Some zs_all -> chain fwd e2 fr2 c zs_all Q.
   Proof.
-    intros Hc Hk. induction Hc as [c Q cf Hqc H1 | c y ys Q L B H1 H2 H3 IH]; intros zs_all Hb; simpl in Hb.
+    intros Hc HP Hk. induction Hc as [c Q cf Hqc H1 | c y ys Q L B H1 H2 H3 IH]; intros zs_all Hb; simpl in Hb.
     - inversion Hb; subst. eapply ch_nil; eauto.
     - destruct (rf y) as [zs|] eqn:Ey; [|discriminate]. destruct (obindm rf ys) as [rest|] eqn:Er; [|discriminate].
-      inversion Hb; subst zs_all. clear Hb.
+      inversion Hb; subst zs_all. clear Hb. inversion HP as [|? ? Py Pys]; subst.
       eapply chain_leads; [exact H1|].
-      eapply chain_app; [apply (Hk y L B zs H2 Ey)|].
-      intros cf (L' & -> & HL). apply (IH L' HL rest eq_refl).
+      eapply chain_app; [apply (Hk y L B zs Py H2 Ey)|].
+      intros cf (L' & -> & HL). apply (IH L' HL Pys rest eq_refl).
+  Qed.
+
+  Lemma forall_obindm {A} (rf : A -> option (list mst)) (P : A -> Prop) (Q : mst -> Prop) : forall xs ys,
+    Forall P xs -> (forall x r, P x -> rf x = Some r -> Forall Q r) -> obindm rf xs = Some ys -> Forall Q ys.
+  Proof.
+    induction xs as [|x xs IH]; intros ys HP Hk Hb; simpl in Hb.
+    - inversion Hb; subst. constructor.
+    - destruct (rf x) as [r|] eqn:Er; [|discriminate]. destruct (obindm rf xs) as [r2|] eqn:E2; [|discriminate].
+      inversion Hb; subst. inversion HP; subst. apply Forall_app. split; [eapply Hk; eauto | eapply IH; eauto].
+  Qed.
+
+  Notation RC ip pos L G B := (mkBC (MRun ip pos) L G B).
+  Notation BK L G B := (mkBC MBack L G B).
+
+  (* back in backtrack mode with the captures and the stack of the start, loops up to dg *)
+  Definition Qback (L : list loopdata) (G : list groupdata) (B : list btinsn) : bconf -> Prop :=
+    fun cf => exists L', cf = BK L' G B /\ leq L L'.
+
+  Lemma Qback_weaken L1 L2 G B cf : leq L2 L1 -> Qback L1 G B cf -> Qback L2 G B cf.
+  Proof. intros H (L' & -> & HL). exists L'. split; auto. eapply leq_trans; eauto. Qed.
+
+  Lemma chain_single fwd e (fr : list loopdata -> Prop) c p' L G B :
+    leads fwd c (RC e p' L G B) -> fr L -> chain fwd e fr c [(p', G)] (Qback L G B).
+  Proof.
+    intros Hl Hf. eapply (ch_cons fwd e fr c (p', G) [] _ L B); simpl; auto.
+    intros L' HL. eapply (ch_nil fwd e fr _ _ (BK L' G B)); [exists L'; auto | apply leads_refl].
+  Qed.
+
+  Lemma chain_none fwd e (fr : list loopdata -> Prop) c L L' G B :
+    leads fwd c (BK L' G B) -> leq L L' -> chain fwd e fr c [] (Qback L G B).
+  Proof. intros Hl HL. eapply (ch_nil fwd e fr c _ (BK L' G B)); [exists L'; auto | exact Hl]. Qed.
+
+  (* move the continuation point of every success *)
+  Lemma chain_retarget fwd e1 e2 (fr : list loopdata -> Prop) c ys (Q : bconf -> Prop) :
+    (forall p' L G B, leads fwd (RC e1 p' L G B) (RC e2 p' L G B)) ->
+    chain fwd e1 fr c ys Q -> chain fwd e2 fr c ys Q.
+  Proof.
+    intros Hm Hc. induction Hc as [c Q cf Hqc H1 | c y ys Q L B H1 H2 H3 IH].
+    - eapply ch_nil; eauto.
+    - eapply ch_cons; eauto. eapply leads_trans; [exact H1|apply Hm].
+  Qed.
+
+  (* ---------------- single steps ---------------- *)
+  Lemma run_step fwd ip pos L G B i c' :
+    nth_error (p_insns prog) ip = Some i -> not_look i = true ->
+    bt_exec ix prog h BBudget L G B fwd ip pos = BSNext c' -> leads fwd (RC ip pos L G B) c'.
+  Proof.
+    intros Hi Hn E. apply leads_step; [|exact E].
+    unfold blook_dir. simpl. rewrite Hi. destruct i; simpl in Hn; try discriminate; reflexivity.
+  Qed.
+
+  Lemma back_step fwd L G B c' : bt_back ix prog h L G B fwd = BSNext c' -> leads fwd (BK L G B) c'.
+  Proof. intro E. apply leads_step; [reflexivity|exact E]. Qed.
+
+  (* the haystack decodes to elements a pattern character can equal (true of valid UTF-8 and of bytes) *)
+  Hypothesis Hix_elem : forall fwd p c p', cnext ix fwd h p = Ok (Some (c, p')) -> ix_elem_of_u32 ix c = true.
+
+  Lemma char_bt_pike c fwd p r : char_pike ix c fwd h p = Ok r -> char_bt ix c fwd h p = Ok r.
+  Proof.
+    unfold char_pike, char_bt. destruct (ix_elem_of_u32 ix c) eqn:Ee; [auto|].
+    unfold next_if. destruct (cnext ix fwd h p) as [e|[[c' p']|]] eqn:En; cbn [bindR]; intro H; try discriminate.
+    - destruct (c =? c') eqn:Ec.
+      + apply N.eqb_eq in Ec. subst c'. rewrite (Hix_elem _ _ _ _ En) in Ee. discriminate.
+      + exact H.
+    - exact H.
+  Qed.
+
+  Lemma bt_simple_step fwd ip pos L G B i r :
+    nth_error (p_insns prog) ip = Some i -> simple_insn i = true ->
+    simple_step ix prog h i fwd pos = Some (Ok r) ->
+    bt_exec ix prog h BBudget L G B fwd ip pos =
+    BSNext (match r with Some p' => RC (S ip) p' L G B | None => BK L G B end).
+  Proof.
+    intros Hi Hs Hr. unfold bt_exec. rewrite Hi.
+    destruct i; simpl in Hs; try discriminate; simpl in Hr; injection Hr as Hr';
+      first [ rewrite (char_bt_pike _ _ _ _ Hr'); destruct r; reflexivity
+            | (cbn [match1]; rewrite Hr'; destruct r; reflexivity)
+            | (inversion Hr'; reflexivity) ].
+  Qed.
+
+  Lemma run_insns_leads fwd L G B code : forall off pos r,
+    code_at prog off code -> forallb simple_insn code = true ->
+    run_insns ix (p_unicode prog) h code fwd pos = Some r ->
+    leads fwd (RC off pos L G B) (match r with Some p' => RC (off + length code) p' L G B | None => BK L G B end).
+  Proof.
+    induction code as [|i code IH]; intros off pos r Hc Hs Hr.
+    - simpl in Hr. inversion Hr; subst. simpl. rewrite Nat.add_0_r. apply leads_refl.
+    - simpl in Hs. apply andb_true_iff in Hs as [Hsi Hsc]. apply code_at_cons in Hc as [Hi Hc].
+      cbn [run_insns] in Hr.
+      change (match i with Char c => Some (char_pike ix c fwd h pos) | JustFail => Some (Ok None)
+                      | other => match1 ix (dummy_prog (p_unicode prog)) other fwd h pos end)
+        with (simple_step ix prog h i fwd pos) in Hr.
+      destruct (simple_step ix prog h i fwd pos) as [[e|[p'|]]|] eqn:Est; try discriminate.
+      + eapply leads_trans.
+        * eapply run_step; [exact Hi | apply simple_not_look; exact Hsi | apply (bt_simple_step fwd off pos L G B i (Some p')); assumption].
+        * replace (off + length (i :: code))%nat with (S off + length code)%nat by (simpl; lia).
+          apply IH; assumption.
+      + inversion Hr; subst.
+        eapply run_step; [exact Hi | apply simple_not_look; exact Hsi | apply (bt_simple_step fwd off pos L G B i None); assumption].
   Qed.
 End BCorrect.
+
+(* ================= the node statement and its cases ================= *)
+Section BNodes.
+  Variable ix : indexer.
+  Variable prog : program.
+  Variable h : hay.
+  Variable utf16 : bool.
+  Hypothesis Hix_elem : forall fwd p c p', cnext ix fwd h p = Ok (Some (c, p')) -> ix_elem_of_u32 ix c = true.
+  Notation RC ip pos L G B := (mkBC (MRun ip pos) L G B).
+  Notation BK L G B := (mkBC MBack L G B).
+  Notation leads := (leads ix prog h).
+  Notation chain := (chain ix prog h).
+
+  (* dg is exactly "the slot belongs to a lookaround body of the node" on the node's slot range *)
+  Definition dgx (dg : nat -> bool) (n : node) (lo : nat) : Prop :=
+    forall i, (lo <= i < lo + nloops n)%nat -> dg i = lslot i n lo.
+
+  Definition bnode_ok_dg (dg : nat -> bool) (f : nat) : Prop := forall n fwd off es code es' pos G l ng,
+    bt_wf ng n = true -> (ng <= length G)%nat -> dgx dg n (es_next_loop es) ->
+    ir_results ix (p_unicode prog) utf16 h f n fwd (pos, G) = Some l ->
+    emit_node utf16 (p_unicode prog) n off (negb fwd) es = Ok (code, es') ->
+    code_at prog off code -> brackets_ok prog es' ->
+    forall L B, (es_next_loop es' <= length L)%nat ->
+    chain dg fwd (off + length code) (leq_out dg (es_next_loop es) (es_next_loop es') L)
+          (RC off pos L G B) l (Qback dg L G B).
+
+  Definition bnode_ok (f : nat) : Prop := forall dg, bnode_ok_dg dg f.
+
+  Section Fixed.
+    Variable dg : nat -> bool.
+    Notation leq := (leq dg).
+    Notation leq_out := (leq_out dg).
+    Notation Qback := (Qback dg).
+
+    (* results of a leaf through its straight-line code *)
+    Lemma bt_leaf fwd code off pos G r lo hi L B :
+      code_at prog off code -> forallb simple_insn code = true ->
+      run_insns ix (p_unicode prog) h code fwd pos = Some r ->
+      chain dg fwd (off + length code) (leq_out lo hi L) (RC off pos L G B)
+            (match r with Some p' => [(p', G)] | None => [] end) (Qback L G B).
+    Proof.
+      intros Hc Hs Hr. pose proof (run_insns_leads ix prog h Hix_elem fwd L G B code off pos r Hc Hs Hr) as Hl.
+      destruct r as [p'|].
+      - apply chain_single; [exact Hl|]. apply leq_leq_out, leq_refl.
+      - eapply chain_none; [exact Hl|apply leq_refl].
+    Qed.
+
+    (* a test of the current position *)
+    Lemma bt_cond fwd off pos G (r : R bool) l i lo hi L B :
+      nth_error (p_insns prog) off = Some i -> not_look i = true ->
+      bt_exec ix prog h BBudget L G B fwd off pos =
+        match r with Err e => BSDone (BError e) | Ok true => BSNext (RC (S off) pos L G B) | Ok false => BSNext (BK L G B) end ->
+      cond_results (pos, G) r = Some l ->
+      chain dg fwd (S off) (leq_out lo hi L) (RC off pos L G B) l (Qback L G B).
+    Proof.
+      intros Hi Hn Hstep Hr. destruct r as [e|[|]]; simpl in Hr; inversion Hr; subst l.
+      - apply chain_single; [eapply run_step; eauto | apply leq_leq_out, leq_refl].
+      - eapply chain_none; [eapply run_step; eauto | apply leq_refl].
+    Qed.
+
+    (* an attempt to advance *)
+    Lemma bt_adv fwd off pos G (r : R (option nat)) l i lo hi L B :
+      nth_error (p_insns prog) off = Some i -> not_look i = true ->
+      bt_exec ix prog h BBudget L G B fwd off pos =
+        match r with Err e => BSDone (BError e) | Ok (Some p') => BSNext (RC (S off) p' L G B) | Ok None => BSNext (BK L G B) end ->
+      match r with Ok (Some p') => Some [(p', G)] | Ok None => Some [] | Err _ => None end = Some l ->
+      chain dg fwd (S off) (leq_out lo hi L) (RC off pos L G B) l (Qback L G B).
+    Proof.
+      intros Hi Hn Hstep Hr. destruct r as [e|[p'|]]; inversion Hr; subst l.
+      - apply chain_single; [eapply run_step; eauto | apply leq_leq_out, leq_refl].
+      - eapply chain_none; [eapply run_step; eauto | apply leq_refl].
+    Qed.
+  End Fixed.
+
+  Section Cases.
+    Variable f : nat.
+    Hypothesis IHf : bnode_ok f.
+    Variable dg : nat -> bool.
+    Notation leq := (leq dg).
+    Notation leq_out := (leq_out dg).
+    Notation Qback := (Qback dg).
+
+    Lemma dgx_cat x t lo : dgx dg (NCat (x :: t)) lo -> dgx dg x lo /\ dgx dg (NCat t) (lo + nloops x).
+    Proof.
+      unfold dgx. intro H. split; intros i Hi.
+      - rewrite H by (simpl; lia). simpl.
+        change ((fix go (l : list node) (lo0 : nat) : bool :=
+                   match l with [] => false | x0 :: t0 => lslot i x0 lo0 || go t0 (lo0 + nloops x0)%nat end) t (lo + nloops x)%nat)
+          with (lslot i (NCat t) (lo + nloops x)).
+        rewrite (lslot_out i (NCat t)) by lia. apply orb_false_r.
+      - rewrite H by (simpl in *; lia). simpl.
+        change ((fix go (l : list node) (lo0 : nat) : bool :=
+                   match l with [] => false | x0 :: t0 => lslot i x0 lo0 || go t0 (lo0 + nloops x0)%nat end) t (lo + nloops x)%nat)
+          with (lslot i (NCat t) (lo + nloops x)).
+        rewrite (lslot_out i x) by lia. reflexivity.
+    Qed.
+
+    Lemma dgx_alt a b lo : dgx dg (NAlt a b) lo -> dgx dg a lo /\ dgx dg b (lo + nloops a).
+    Proof.
+      unfold dgx. intro H. split; intros i Hi.
+      - rewrite H by (simpl; lia). simpl. rewrite (lslot_out i b) by lia. apply orb_false_r.
+      - rewrite H by (simpl; lia). simpl. rewrite (lslot_out i a) by lia. reflexivity.
+    Qed.
+
+    Lemma dgx_loop body mn mx gr egs ege lo : dgx dg (NLoop body mn mx gr egs ege) lo -> dg lo = false /\ dgx dg body (S lo).
+    Proof.
+      unfold dgx. intro H. split.
+      - rewrite H by (simpl; lia). simpl. apply lslot_out. lia.
+      - intros i Hi. rewrite H by (simpl; lia). reflexivity.
+    Qed.
+
+    Lemma dgx_look ng bw sg eg c lo : dgx dg (NLookaround ng bw sg eg c) lo -> forall i, (lo <= i < lo + nloops c)%nat -> dg i = true.
+    Proof.
+      unfold dgx. intros H i Hi. rewrite H by (simpl; lia). simpl.
+      apply andb_true_iff. split; [apply Nat.leb_le|apply Nat.ltb_lt]; lia.
+    Qed.
+
+    (* sequence *)
+    Lemma bt_cat fwd ng : forall l off es code es' xs ys c (Q : bconf -> Prop) lo0 L0,
+      bt_wf ng (NCat l) = true -> dgx dg (NCat l) (es_next_loop es) ->
+      cat_results (fun c => ir_results ix (p_unicode prog) utf16 h f c fwd) l xs = Some ys ->
+      emit_node utf16 (p_unicode prog) (NCat l) off (negb fwd) es = Ok (code, es') ->
+      code_at prog off code -> brackets_ok prog es' ->
+      Forall (fun y => (ng <= length (snd y))%nat) xs ->
+      (lo0 <= es_next_loop es)%nat -> (es_next_loop es' <= length L0)%nat ->
+      chain dg fwd off (leq_out lo0 (es_next_loop es) L0) c xs Q ->
+      chain dg fwd (off + length code) (leq_out lo0 (es_next_loop es') L0) c ys Q.
+    Proof.
+      induction l as [|n l IHl]; intros off es code es' xs ys c Q lo0 L0 Hwf Hdg Hr He Hc Hbr Hxs Hlo Hlen Hch.
+      - simpl in Hr, He. inversion Hr; inversion He; subst. simpl. rewrite Nat.add_0_r. exact Hch.
+      - simpl in Hwf. apply andb_true_iff in Hwf as [Hwn Hwl].
+        apply dgx_cat in Hdg as [Hdn Hdl].
+        cbn [cat_results] in Hr.
+        destruct (obindm (fun x => ir_results ix (p_unicode prog) utf16 h f n fwd x) xs) as [ys1|] eqn:Eb; [|discriminate].
+        simpl in He.
+        destruct (emit_node utf16 (p_unicode prog) n off (negb fwd) es) as [e|[cn en]] eqn:En; simpl in He; [discriminate|].
+        match type of He with (do rt <- ?r; _) = _ => destruct r as [e|[ct et]] eqn:Et; simpl in He; [discriminate|] end.
+        inversion He; subst code es'. clear He.
+        apply code_at_app in Hc as [Hcn Hct].
+        assert (Het : emit_node utf16 (p_unicode prog) (NCat l) (off + length cn) (negb fwd) en = Ok (ct, et)) by exact Et.
+        pose proof (emit_extends _ _ _ _ _ _ _ _ En) as Hx1. pose proof (emit_extends _ _ _ _ _ _ _ _ Het) as Hx2.
+        assert (Hbn : brackets_ok prog en) by (eapply brackets_ok_mono; eauto).
+        destruct Hx1 as (L1 & _ & _). destruct Hx2 as (L2 & _ & _).
+        rewrite <- (emit_nloops _ _ _ _ _ _ _ _ En) in Hdl.
+        rewrite app_length, Nat.add_assoc.
+        eapply (IHl (off + length cn)%nat en ct et ys1 ys c Q lo0 L0); eauto; try lia.
+        + (* slot counts of the intermediate results *)
+          eapply (forall_obindm _ (fun y => (ng <= length (snd y))%nat)); [exact Hxs| |exact Eb].
+          intros [q Gq] r Hq Hrr. simpl in Hq.
+          pose proof (ir_len ix (p_unicode prog) utf16 h f n fwd q Gq r Hrr) as Hl.
+          eapply Forall_impl; [|exact Hl]. intros z Hz. simpl in Hz. rewrite Hz. exact Hq.
+        + (* run n from every success so far *)
+          eapply (chain_bind ix prog h dg fwd off (off + length cn)%nat _ _ _ (fun y => (ng <= length (snd y))%nat) c xs Q Hch Hxs); [|exact Eb].
+          intros [q Gq] L B zs Hq Hfr Hz. simpl in Hq. cbn [fst snd].
+          assert (HlenL : length L0 = length L) by (destruct Hfr; assumption).
+          eapply chain_weaken; [| |eapply (IHf dg n fwd off es cn en q Gq zs ng Hwn Hq Hdn Hz En Hcn Hbn L B); lia].
+          * intros L' HL'. eapply leq_out_trans; [eapply leq_out_widen; [| |exact Hfr]; lia|].
+            eapply leq_out_widen; [| |exact HL']; lia.
+          * intros cf Hcf. exact Hcf.
+    Qed.
+
+    Lemma set_nth_undo {A} (l : list A) : forall i x y, nth_error l i = Some x -> set_nth i x (set_nth i y l) = l.
+    Proof.
+      induction l as [|a l IH]; intros [|i] x y H; simpl in *; try discriminate.
+      - inversion H; subst. reflexivity.
+      - rewrite IH by assumption. reflexivity.
+    Qed.
+
+    (* alternation: Alt right; <a>; Jump exit; <b> *)
+    Lemma bt_alt fwd ng a b off es code es' pos G l :
+      bt_wf ng (NAlt a b) = true -> (ng <= length G)%nat -> dgx dg (NAlt a b) (es_next_loop es) ->
+      ir_results ix (p_unicode prog) utf16 h (S f) (NAlt a b) fwd (pos, G) = Some l ->
+      emit_node utf16 (p_unicode prog) (NAlt a b) off (negb fwd) es = Ok (code, es') ->
+      code_at prog off code -> brackets_ok prog es' ->
+      forall L B, (es_next_loop es' <= length L)%nat ->
+      chain dg fwd (off + length code) (leq_out (es_next_loop es) (es_next_loop es') L) (RC off pos L G B) l (Qback L G B).
+    Proof.
+      intros Hwf Hng Hdg Hr He Hc Hbr L B Hlen.
+      simpl in Hwf. apply andb_true_iff in Hwf as [Hwa Hwb]. apply dgx_alt in Hdg as [Hda Hdb].
+      cbn [ir_results] in Hr.
+      destruct (ir_results ix (p_unicode prog) utf16 h f a fwd (pos, G)) as [u|] eqn:Eu; [|discriminate].
+      destruct (ir_results ix (p_unicode prog) utf16 h f b fwd (pos, G)) as [v|] eqn:Ev; [|discriminate].
+      inversion Hr; subst l. clear Hr.
+      simpl in He.
+      destruct (emit_node utf16 (p_unicode prog) a (S off) (negb fwd) es) as [e|[ca ea]] eqn:Ea; simpl in He; [discriminate|].
+      destruct (emit_node utf16 (p_unicode prog) b (off + 2 + length ca) (negb fwd) ea) as [e|[cb eb]] eqn:Eb; simpl in He; [discriminate|].
+      inversion He; subst code es'. clear He.
+      apply code_at_cons in Hc as [Hi0 Hc]. apply code_at_app in Hc as [Hca Hc].
+      apply code_at_cons in Hc as [Hij Hcb].
+      pose proof (emit_extends _ _ _ _ _ _ _ _ Ea) as Hx1. pose proof (emit_extends _ _ _ _ _ _ _ _ Eb) as Hx2.
+      assert (Hbra : brackets_ok prog ea) by (eapply brackets_ok_mono; eauto).
+      destruct Hx1 as (L1 & _ & _). destruct Hx2 as (L2 & _ & _).
+      rewrite <- (emit_nloops _ _ _ _ _ _ _ _ Ea) in Hdb.
+      set (right := (off + 2 + length ca)%nat) in *.
+      set (exit := (right + length cb)%nat) in *.
+      match goal with |- chain _ _ ?e _ _ _ _ =>
+        replace e with exit by (unfold exit, right; simpl; rewrite app_length; simpl; lia) end.
+      set (B' := BSetPosition right pos :: B).
+      eapply chain_leads.
+      { eapply (run_step ix prog h fwd off pos L G B (Alt right)); [exact Hi0|reflexivity|].
+        unfold bt_exec. rewrite Hi0. reflexivity. }
+      fold B'.
+      eapply chain_app.
+      - (* the left branch; every success jumps over the right branch *)
+        eapply (chain_retarget ix prog h dg fwd (S off + length ca)%nat exit).
+        + intros p' L' G' B0. eapply (run_step ix prog h fwd _ p' L' G' B0 (Jump exit)); [|reflexivity|].
+          * exact Hij.
+          * unfold bt_exec. rewrite Hij. reflexivity.
+        + eapply chain_weaken; [| |eapply (IHf dg a fwd (S off) es ca ea pos G u ng Hwa Hng Hda Eu Ea Hca Hbra L B'); lia].
+          * intros L' HL'. eapply leq_out_widen; [| |exact HL']; lia.
+          * intros cf Hcf. exact Hcf.
+      - (* backtracking into the Alt record runs the right branch *)
+        intros cf (L' & -> & HL).
+        eapply chain_leads.
+        { apply back_step. unfold B'. reflexivity. }
+        assert (Hlen' : length L = length L') by (destruct HL; assumption).
+        eapply chain_weaken; [| |eapply (IHf dg b fwd right ea cb eb pos G v ng Hwb Hng Hdb Ev Eb)]; try lia.
+        + intros L2' HL2. eapply leq_out_trans; [apply leq_leq_out; exact HL|]. eapply leq_out_widen; [| |exact HL2]; lia.
+        + intros cf Hcf. eapply Qback_weaken; eauto.
+        + replace right with (S (S off + length ca)) by (unfold right; lia).
+          replace (S (S off + length ca)) with (S (S (off + length ca))) by lia.
+          replace (S (off + length ca)) with (S off + length ca)%nat in Hcb by lia.
+          replace (S (S (off + length ca))) with (S (S off + length ca)) by lia. exact Hcb.
+        + exact Hbr.
+    Qed.
+
+    (* capture group: BeginCG id; <c>; EndCG id *)
+    Lemma bt_group fwd ng id c nm off es code es' pos G l :
+      bt_wf ng (NCaptureGroup id c nm) = true -> (ng <= length G)%nat -> dgx dg (NCaptureGroup id c nm) (es_next_loop es) ->
+      ir_results ix (p_unicode prog) utf16 h (S f) (NCaptureGroup id c nm) fwd (pos, G) = Some l ->
+      emit_node utf16 (p_unicode prog) (NCaptureGroup id c nm) off (negb fwd) es = Ok (code, es') ->
+      code_at prog off code -> brackets_ok prog es' ->
+      forall L B, (es_next_loop es' <= length L)%nat ->
+      chain dg fwd (off + length code) (leq_out (es_next_loop es) (es_next_loop es') L) (RC off pos L G B) l (Qback L G B).
+    Proof.
+      intros Hwf Hng Hdg Hr He Hc Hbr L B Hlen.
+      simpl in Hwf. cbn [ir_results] in Hr.
+      destruct (upd_group id (set_group_start fwd pos) G) as [G1|] eqn:E1; [|discriminate].
+      destruct (ir_results ix (p_unicode prog) utf16 h f c fwd (pos, G1)) as [lc|] eqn:Ec; [|discriminate].
+      simpl in He.
+      match type of He with (do rc <- emit_node _ _ _ _ _ ?e1; _) = _ => set (es1 := e1) in * end.
+      destruct (emit_node utf16 (p_unicode prog) c (S off) (negb fwd) es1) as [e|[cc ec]] eqn:Eem; simpl in He; [discriminate|].
+      inversion He; subst code es'. clear He.
+      apply code_at_cons in Hc as [Hi0 Hc]. apply code_at_app in Hc as [Hcc Hce]. apply code_at_cons in Hce as [Hie _].
+      unfold upd_group in E1. destruct (nth_error G id) as [gd|] eqn:Egd; [|discriminate]. inversion E1; subst G1. clear E1.
+      set (G1 := set_nth id (set_group_start fwd pos gd) G) in *.
+      set (B1 := BSetCaptureGroup id gd :: B).
+      set (ec_ip := (S off + length cc)%nat) in *.
+      match goal with |- chain _ _ ?e _ _ _ _ =>
+        replace e with (S ec_ip) by (unfold ec_ip; simpl; rewrite app_length; simpl; lia) end.
+      assert (Hstep1 : leads fwd (RC off pos L G B) (RC (S off) pos L G1 B1)).
+      { eapply (run_step ix prog h fwd off pos L G B (BeginCG id)); [exact Hi0|reflexivity|].
+        unfold bt_exec. rewrite Hi0, Egd. unfold G1, B1, set_group_start. destruct fwd; reflexivity. }
+      eapply chain_leads; [exact Hstep1|].
+      assert (Hng1 : (ng <= length G1)%nat) by (unfold G1; rewrite set_nth_length; exact Hng).
+      assert (Hdc : dgx dg c (es_next_loop es1)) by exact Hdg.
+      pose proof (IHf dg c fwd (S off) es1 cc ec pos G1 lc ng Hwf Hng1 Hdc Ec Eem Hcc Hbr L B1 Hlen) as Hch.
+      rewrite <- (app_nil_r l). eapply chain_app.
+      - eapply (chain_bind ix prog h dg fwd ec_ip (S ec_ip) _ _ _ (fun _ => True) _ lc _ Hch); [apply Forall_forall; auto| |exact Hr].
+        intros [q Gq] L' B' zs _ Hfr Hz. cbn [fst snd] in *.
+        unfold upd_group in Hz. destruct (nth_error Gq id) as [gdq|] eqn:Egq; [|discriminate]. inversion Hz; subst zs. clear Hz.
+        eapply (ch_cons ix prog h dg fwd (S ec_ip) _ _ (q, set_nth id (set_group_end fwd q gdq) Gq) [] _ L' (BSetCaptureGroup id gdq :: B')).
+        + cbn [fst snd]. eapply (run_step ix prog h fwd ec_ip q L' Gq B' (EndCG id)); [exact Hie|reflexivity|].
+          unfold bt_exec. rewrite Hie, Egq. unfold set_group_end. destruct fwd; reflexivity.
+        + exact Hfr.
+        + intros L'' HL''. cbn [snd].
+          eapply (ch_nil ix prog h dg fwd (S ec_ip) _ _ _ (BK L'' Gq B')); [exists L''; auto|].
+          apply back_step. unfold bt_back. rewrite set_nth_length.
+          assert (Hid : (id <? length Gq)%nat = true) by (apply Nat.ltb_lt; apply nth_error_Some; congruence).
+          rewrite Hid. rewrite (set_nth_undo Gq id gdq _ Egq). reflexivity.
+      - intros cf (L' & -> & HL).
+        eapply (ch_nil ix prog h dg fwd (S ec_ip) _ _ _ (BK L' G B)); [exists L'; auto|].
+        apply back_step. unfold B1, bt_back. unfold G1. rewrite set_nth_length.
+        assert (Hid : (id <? length G)%nat = true) by (apply Nat.ltb_lt; apply nth_error_Some; congruence).
+        rewrite Hid. rewrite (set_nth_undo G id gd _ Egd). reflexivity.
+    Qed.
+
+    (* ---------------- loops ---------------- *)
+    Lemma bt_resets fwd : forall n lo G g1 ip pos L B,
+      reset_groups G lo n = Some g1 -> code_at prog ip (map ResetCG (seq lo n)) ->
+      exists B', leads fwd (RC ip pos L G B) (RC (ip + n) pos L g1 B') /\ forall L', leads fwd (BK L' g1 B') (BK L' G B).
+    Proof.
+      induction n as [|n IH]; intros lo G g1 ip pos L B Hr Hc.
+      - simpl in Hr. inversion Hr; subst. exists B. rewrite Nat.add_0_r. split; [apply leads_refl|intro; apply leads_refl].
+      - cbn [reset_groups] in Hr. destruct (upd_group lo (fun _ => gd_empty) G) as [G'|] eqn:Eu; [|discriminate].
+        simpl in Hc. apply code_at_cons in Hc as [Hi Hc].
+        unfold upd_group in Eu. destruct (nth_error G lo) as [gd|] eqn:Egd; [|discriminate]. inversion Eu; subst G'. clear Eu.
+        destruct (IH (S lo) _ g1 (S ip) pos L (BSetCaptureGroup lo gd :: B) Hr Hc) as (B' & H1 & H2).
+        exists B'. split.
+        + eapply leads_trans; [|replace (ip + S n)%nat with (S ip + n)%nat by lia; exact H1].
+          eapply (run_step ix prog h fwd ip pos L G B (ResetCG lo)); [exact Hi|reflexivity|].
+          unfold bt_exec. rewrite Hi, Egd. reflexivity.
+        + intro L'. eapply leads_trans; [apply H2|].
+          apply back_step. unfold bt_back. rewrite set_nth_length.
+          assert (Hid : (lo <? length G)%nat = true) by (apply Nat.ltb_lt; apply nth_error_Some; congruence).
+          rewrite Hid. rewrite (set_nth_undo G lo gd _ Egd). reflexivity.
+    Qed.
+
+    Lemma leq_restore L L' lid ld v : nth_error L lid = Some ld -> leq (set_nth lid v L) L' -> leq L (set_nth lid ld L').
+    Proof.
+      intros Hl [H1 H2]. rewrite set_nth_length in H1. split; [rewrite set_nth_length; exact H1|].
+      intros i Hi. destruct (Nat.eq_dec i lid) as [->|Hne].
+      - rewrite nth_error_set_nth_eq; [exact Hl|]. rewrite <- H1. apply nth_error_Some. congruence.
+      - rewrite nth_error_set_nth_neq by auto. rewrite <- H2 by exact Hi. rewrite nth_error_set_nth_neq by auto. reflexivity.
+    Qed.
+
+    Section BLoop.
+      Variables (fwd : bool) (body : node) (mn : N) (mx : option N) (gr : bool) (egs ege : nat).
+      Variables (off lid exit again ng : nat) (es1 eb : estate) (cb : list insn).
+      Let MX := max_val mx.
+      Let resets := map ResetCG (seq egs (ege - egs)).
+      Hypothesis Hwb : bt_wf ng body = true.
+      Hypothesis Hdb : dgx dg body (S lid).
+      Hypothesis Hdl : dg lid = false.
+      Hypothesis Hi_enter : nth_error (p_insns prog) off = Some (EnterLoop lid mn MX gr exit).
+      Hypothesis Hc_resets : code_at prog (S off) resets.
+      Hypothesis Hc_body : code_at prog (off + 1 + length resets) cb.
+      Hypothesis Hagain : again = (off + 1 + length resets + length cb)%nat.
+      Hypothesis Hi_again : nth_error (p_insns prog) again = Some (LoopAgain off).
+      Hypothesis Eb : emit_node utf16 (p_unicode prog) body (off + 1 + length resets) (negb fwd) es1 = Ok (cb, eb).
+      Hypothesis Hbr : brackets_ok prog eb.
+      Hypothesis Hlid : es_next_loop es1 = S lid.
+      Notation hi := (es_next_loop eb).
+
+      Lemma bloop_dec : forall lf k entry pos G l c L B e0,
+        loop_results (ir_results ix (p_unicode prog) utf16 h f body fwd) mn mx gr egs ege lf k entry (pos, G) = Some l ->
+        (ng <= length G)%nat ->
+        blook_dir prog c = None ->
+        bt_next ix prog h BBudget fwd c = bt_run_loop L G B lid mn MX gr exit pos off ->
+        nth_error L lid = Some (mkLD k e0) -> (k = 0 \/ e0 = entry) -> (hi <= length L)%nat ->
+        chain dg fwd exit (leq_out lid hi L) c l (Qback L G B).
+      Proof.
+        pose proof (emit_extends _ _ _ _ _ _ _ _ Eb) as (Lx & _ & _). rewrite Hlid in Lx.
+        induction lf as [|lf IH]; intros k entry pos G l c L B e0 Hr Hng Hld Hstep HL Hke Hlen; [discriminate|].
+        assert (Hll : (lid < length L)%nat) by lia.
+        cbn [loop_results fst snd] in Hr. unfold bt_run_loop in Hstep. rewrite HL in Hstep. cbn [ld_iters ld_entry] in Hstep.
+        assert (Hchk : ((e0 =? pos)%nat && (mn <? k)) = ((0 <? k) && (mn <? k) && (entry =? pos)%nat)).
+        { destruct (mn <? k) eqn:Emk; [|rewrite !andb_false_r; reflexivity].
+          apply N.ltb_lt in Emk. replace (0 <? k) with true by (symmetry; apply N.ltb_lt; lia).
+          destruct Hke as [-> | ->]; [lia|]. rewrite andb_true_r. reflexivity. }
+        rewrite Hchk in Hstep.
+        destruct ((0 <? k) && (mn <? k) && (entry =? pos)%nat).
+        { inversion Hr; subst l. eapply chain_none; [apply leads_step; eauto|apply leq_refl]. }
+        fold MX in Hr.
+        set (ld := mkLD k e0) in *.
+        (* running one more iteration from a state whose counter says k+1 *)
+        assert (Hiter : forall it L2 Bx,
+                  match reset_groups G egs (ege - egs) with
+                  | None => None
+                  | Some g1 => match ir_results ix (p_unicode prog) utf16 h f body fwd (pos, g1) with
+                               | None => None
+                               | Some zs => obindm (loop_results (ir_results ix (p_unicode prog) utf16 h f body fwd) mn mx gr egs ege lf (k + 1) pos) zs
+                               end
+                  end = Some it ->
+                  nth_error L2 lid = Some (mkLD (k + 1) pos) -> leq_out lid hi L L2 ->
+                  chain dg fwd exit (leq_out lid hi L) (RC (S off) pos L2 G Bx) it (Qback L2 G Bx)).
+        { intros it L2 Bx Hit HL2 HLL2.
+          assert (Hlen2 : length L = length L2) by (destruct HLL2; assumption).
+          destruct (reset_groups G egs (ege - egs)) as [g1|] eqn:Erg; [|discriminate].
+          destruct (ir_results ix (p_unicode prog) utf16 h f body fwd (pos, g1)) as [zs|] eqn:Ez; [|discriminate].
+          destruct (bt_resets fwd (ege - egs) egs G g1 (S off) pos L2 Bx Erg Hc_resets) as (B' & Hr1 & Hr2).
+          assert (Hboff : (S off + (ege - egs))%nat = (off + 1 + length resets)%nat).
+          { unfold resets. rewrite map_length, seq_length. lia. }
+          rewrite Hboff in Hr1.
+          assert (Hng1 : (ng <= length g1)%nat) by (rewrite (len_reset _ _ _ _ Erg); exact Hng).
+          assert (Hdb' : dgx dg body (es_next_loop es1)) by (rewrite Hlid; exact Hdb).
+          pose proof (IHf dg body fwd (off + 1 + length resets)%nat es1 cb eb pos g1 zs ng Hwb Hng1 Hdb' Ez Eb Hc_body Hbr L2 B') as Hbody.
+          rewrite Hlid in Hbody. rewrite <- Hagain in Hbody. specialize (Hbody ltac:(lia)).
+          eapply chain_leads; [exact Hr1|].
+          rewrite <- (app_nil_r it). eapply chain_app.
+          - eapply (chain_bind ix prog h dg fwd again exit _ _ _ (fun y => (ng <= length (snd y))%nat) _ zs _ Hbody); [| |exact Hit].
+            + pose proof (ir_len ix (p_unicode prog) utf16 h f body fwd pos g1 zs Ez) as Hl.
+              eapply Forall_impl; [|exact Hl]. intros z Hz. simpl in Hz. rewrite Hz. exact Hng1.
+            + intros [q Gq] Lu Bu r Hq Hfr Hrr. cbn [fst snd] in *.
+              assert (HlenU : length L2 = length Lu) by (destruct Hfr; assumption).
+              assert (HLu : nth_error Lu lid = Some (mkLD (k + 1) pos)).
+              { destruct Hfr as [_ Hfr]. rewrite <- Hfr; [exact HL2|exact Hdl|lia]. }
+              eapply chain_weaken; [| |eapply (IH (k + 1) pos q Gq r (RC again q Lu Gq Bu) Lu Bu pos Hrr Hq)]; try lia; auto.
+              * intros L' HL'. eapply leq_out_trans; [exact HLL2|]. eapply leq_out_trans; [|exact HL'].
+                eapply leq_out_widen; [| |exact Hfr]; lia.
+              * unfold blook_dir. simpl. rewrite Hi_again. reflexivity.
+              * unfold bt_next. simpl. unfold bt_exec. rewrite Hi_again, Hi_enter. reflexivity.
+          - intros cf (L' & -> & HL'). eapply (ch_nil ix prog h dg fwd exit _ _ _ (BK L' G Bx)); [exists L'; auto|apply Hr2]. }
+        assert (HL2 : nth_error (set_nth lid (mkLD (k + 1) pos) L) lid = Some (mkLD (k + 1) pos)) by (apply nth_error_set_nth_eq; exact Hll).
+        assert (HLL2 : leq_out lid hi L (set_nth lid (mkLD (k + 1) pos) L)).
+        { split; [symmetry; apply set_nth_length|]. intros i Hi Hr'. symmetry. apply nth_error_set_nth_neq. lia. }
+        set (L2 := set_nth lid (mkLD (k + 1) pos) L) in *.
+        assert (Hback_ld : forall L' Bz, leq L2 L' -> leads fwd (BK L' G (BSetLoopData lid ld :: Bz)) (BK (set_nth lid ld L') G Bz) /\ leq L (set_nth lid ld L')).
+        { intros L' Bz HL'. split.
+          - apply back_step. unfold bt_back.
+            assert (Hid : (lid <? length L')%nat = true).
+            { apply Nat.ltb_lt. destruct HL' as [Hl' _]. unfold L2 in Hl'. rewrite set_nth_length in Hl'. lia. }
+            rewrite Hid. reflexivity.
+          - eapply leq_restore; eauto. }
+        destruct (k <? MX) eqn:Een, (mn <=? k) eqn:Esk; cbn [negb andb] in Hr.
+        - (* both possible *)
+          match type of Hr with match ?itx with _ => _ end = _ => destruct itx as [it|] eqn:Eit; [|discriminate] end.
+          inversion Hr; subst l. clear Hr.
+          destruct gr.
+          + (* greedy: iterate, the exit continuation is a BSetPosition record *)
+            eapply chain_leads; [apply leads_step; [exact Hld|exact Hstep]|].
+            eapply chain_app; [apply (Hiter it L2 _ eq_refl HL2 HLL2)|].
+            intros cf (L' & -> & HL').
+            destruct (Hback_ld L' (BSetPosition exit pos :: B) HL') as [Hb1 Hb2].
+            eapply chain_leads; [exact Hb1|].
+            eapply chain_leads; [apply back_step; reflexivity|].
+            eapply chain_weaken; [intros L0 H0; exact H0| |apply (chain_single ix prog h dg fwd exit _ _ pos (set_nth lid ld L') G B (leads_refl _ _ _ _ _)); apply leq_leq_out; exact Hb2].
+            intros cf Hcf. eapply Qback_weaken; eauto.
+          + (* lazy: leave first; the record re-enters the loop *)
+            set (ld' := mkLD k pos) in *.
+            eapply (ch_cons ix prog h dg fwd exit _ _ (pos, G) it _ (set_nth lid ld' L) (BEnterNonGreedyLoop off e0 ld' :: B)).
+            * cbn [fst snd]. apply leads_step; [exact Hld|exact Hstep].
+            * split; [symmetry; apply set_nth_length|]. intros i Hi Hr'. symmetry. apply nth_error_set_nth_neq. lia.
+            * intros L'' HL''. cbn [snd].
+              assert (Hlen'' : length L = length L'') by (destruct HL'' as [Hl _]; rewrite set_nth_length in Hl; exact Hl).
+              set (L2'' := set_nth lid (mkLD (k + 1) pos) L'').
+              eapply chain_leads.
+              { apply back_step. unfold bt_back. rewrite Hi_enter.
+                assert (Hid : (lid <? length L'')%nat = true) by (apply Nat.ltb_lt; lia). rewrite Hid. reflexivity. }
+              cbn [ld_iters ld_entry ld'].
+              assert (HL2'' : nth_error L2'' lid = Some (mkLD (k + 1) pos)) by (apply nth_error_set_nth_eq; lia).
+              assert (HLL2'' : leq_out lid hi L L2'').
+              { split; [unfold L2''; rewrite set_nth_length; exact Hlen''|].
+                intros i Hi Hr'. unfold L2''. rewrite nth_error_set_nth_neq by lia.
+                destruct HL'' as [_ H2]. rewrite <- H2 by exact Hi. rewrite nth_error_set_nth_neq by lia. reflexivity. }
+              rewrite <- (app_nil_r it). eapply chain_app; [apply (Hiter it L2'' _ eq_refl HL2'' HLL2'')|].
+              intros cf (L3 & -> & HL3).
+              assert (Hlen3 : length L = length L3) by (destruct HL3 as [Hl _]; unfold L2'' in Hl; rewrite set_nth_length in Hl; lia).
+              eapply (ch_nil ix prog h dg fwd exit _ _ _ (BK (set_nth lid ld (set_nth lid ld' L3)) G B)).
+              -- exists (set_nth lid ld (set_nth lid ld' L3)). split; [reflexivity|].
+                 split; [rewrite !set_nth_length; lia|].
+                 intros i Hi. destruct (Nat.eq_dec i lid) as [->|Hne].
+                 ++ rewrite nth_error_set_nth_eq by (rewrite set_nth_length; lia). exact HL.
+                 ++ rewrite !nth_error_set_nth_neq by auto.
+                    destruct HL3 as [_ H3]. rewrite <- H3 by exact Hi. unfold L2''. rewrite nth_error_set_nth_neq by auto.
+                    destruct HL'' as [_ H2]. rewrite <- H2 by exact Hi. rewrite nth_error_set_nth_neq by auto. reflexivity.
+              -- eapply leads_trans.
+                 ++ apply back_step. unfold bt_back.
+                    assert (Hid : (lid <? length L3)%nat = true) by (apply Nat.ltb_lt; lia). rewrite Hid. reflexivity.
+                 ++ apply back_step. unfold bt_back. rewrite set_nth_length.
+                    assert (Hid : (lid <? length L3)%nat = true) by (apply Nat.ltb_lt; lia). rewrite Hid. reflexivity.
+        - (* must iterate *)
+          eapply chain_leads; [apply leads_step; [exact Hld|exact Hstep]|].
+          rewrite <- (app_nil_r l). eapply chain_app; [apply (Hiter l L2 _ Hr HL2 HLL2)|].
+          intros cf (L' & -> & HL').
+          destruct (Hback_ld L' B HL') as [Hb1 Hb2].
+          eapply (ch_nil ix prog h dg fwd exit _ _ _ (BK (set_nth lid ld L') G B)); [exists (set_nth lid ld L'); auto|exact Hb1].
+        - (* must leave *)
+          inversion Hr; subst l.
+          apply chain_single; [apply leads_step; [exact Hld|exact Hstep]|apply leq_leq_out, leq_refl].
+        - inversion Hr; subst l. eapply chain_none; [apply leads_step; [exact Hld|exact Hstep]|apply leq_refl].
+      Qed.
+    End BLoop.
+
+    Lemma bt_loop fwd ng body mn mx gr egs ege off es code es' pos G l :
+      bt_wf ng (NLoop body mn mx gr egs ege) = true -> (ng <= length G)%nat -> dgx dg (NLoop body mn mx gr egs ege) (es_next_loop es) ->
+      ir_results ix (p_unicode prog) utf16 h (S f) (NLoop body mn mx gr egs ege) fwd (pos, G) = Some l ->
+      emit_node utf16 (p_unicode prog) (NLoop body mn mx gr egs ege) off (negb fwd) es = Ok (code, es') ->
+      code_at prog off code -> brackets_ok prog es' ->
+      forall L B, (es_next_loop es' <= length L)%nat ->
+      chain dg fwd (off + length code) (leq_out (es_next_loop es) (es_next_loop es') L) (RC off pos L G B) l (Qback L G B).
+    Proof.
+      intros Hwf Hng Hdg Hr He Hc Hbr L B Hlen.
+      simpl in Hwf. apply dgx_loop in Hdg as [Hdl Hdb]. cbn [ir_results] in Hr.
+      simpl in He.
+      match type of He with (do rb <- emit_node _ _ _ ?o _ ?e1; _) = _ => set (es1 := e1) in *; set (boff := o) in * end.
+      destruct (emit_node utf16 (p_unicode prog) body boff (negb fwd) es1) as [e|[cb eb]] eqn:Eb; simpl in He; [discriminate|].
+      inversion He; subst code es'. clear He.
+      apply code_at_cons in Hc as [Hi0 Hc]. apply code_at_app in Hc as [Hcr Hc]. apply code_at_app in Hc as [Hcb Hca].
+      apply code_at_cons in Hca as [Hia _].
+      set (resets := map ResetCG (seq egs (ege - egs))) in *.
+      set (exit := (off + 1 + length resets + length cb + 1)%nat) in *.
+      match goal with |- chain _ _ ?e _ _ _ _ =>
+        replace e with exit by (unfold exit, boff; simpl; rewrite !app_length; simpl; lia) end.
+      set (lid := es_next_loop es) in *.
+      pose proof (emit_extends _ _ _ _ _ _ _ _ Eb) as (Lx & _ & _). simpl in Lx.
+      assert (Hll : (lid < length L)%nat) by lia.
+      destruct (nth_error L lid) as [ld0|] eqn:Eld; [|apply nth_error_None in Eld; lia].
+      set (L1 := set_nth lid (mkLD 0 (ld_entry ld0)) L).
+      set (B1 := BSetLoopData lid ld0 :: B).
+      assert (HL1 : nth_error L1 lid = Some (mkLD 0 (ld_entry ld0))) by (apply nth_error_set_nth_eq; exact Hll).
+      assert (HLL1 : leq_out lid (es_next_loop eb) L L1).
+      { split; [symmetry; apply set_nth_length|]. intros i Hi Hr'. symmetry. apply nth_error_set_nth_neq. lia. }
+      replace (S off + length resets)%nat with (off + 1 + length resets)%nat in Hcb by lia.
+      replace (S off + length resets + length cb)%nat with (off + 1 + length resets + length cb)%nat in Hia by lia.
+      pose proof (bloop_dec fwd body mn mx gr egs ege off lid exit (off + 1 + length resets + length cb)%nat ng es1 eb cb
+                            Hwf Hdb Hdl Hi0 Hcr Hcb eq_refl Hia Eb Hbr eq_refl) as Hdec.
+      rewrite <- (app_nil_r l). eapply chain_app.
+      - eapply chain_weaken; [| |eapply (Hdec f 0 pos pos G l (RC off pos L G B) L1 B1 (ld_entry ld0) Hr Hng)]; auto.
+        + intros L' HL'. eapply leq_out_trans; [exact HLL1|exact HL'].
+        + intros cf Hcf. exact Hcf.
+        + unfold blook_dir. simpl. rewrite Hi0. reflexivity.
+        + unfold bt_next. simpl. unfold bt_exec. rewrite Hi0, Eld. reflexivity.
+        + unfold L1. rewrite set_nth_length. exact Hlen.
+      - intros cf (L' & -> & HL').
+        eapply (ch_nil ix prog h dg fwd exit _ _ _ (BK (set_nth lid ld0 L') G B)).
+        + exists (set_nth lid ld0 L'). split; [reflexivity|]. eapply leq_restore; eauto.
+        + apply back_step. unfold B1, bt_back.
+          assert (Hid : (lid <? length L')%nat = true).
+          { apply Nat.ltb_lt. destruct HL' as [Hl' _]. unfold L1 in Hl'. rewrite set_nth_length in Hl'. lia. }
+          rewrite Hid. reflexivity.
+    Qed.
+  End Cases.
+End BNodes.
